@@ -127,6 +127,10 @@ func (h *ValueReader) HandleObjectValue(fieldname, data []byte) (p int, err erro
 	default:
 		val, pp, err = h.readSimpleValue(data, tknType)
 	}
+	if h.objVal == nil {
+		// a ValueReader handed directly to HandleObjectValues has no map yet
+		h.objVal = make(map[string]interface{})
+	}
 	h.objVal[string(fieldname)] = val
 	return p + pp, err
 }
